@@ -27,6 +27,7 @@ RngOK(ev) ==
   /\ ev.containsPos = ContainsPos(a, ev.p)
   /\ ev.isect = OptR(Intersect(a, b))
   /\ R(ev.merge) = Merge(<<a, b, R(ev.c)>>)
-PropC20 == CASE seen.e = "Str" -> StrOK(seen) [] seen.e = "Rng" -> RngOK(seen) [] OTHER -> TRUE
+PropC20 == CASE seen.e = "Str" -> StrOK(seen) [] seen.e = "Rng" -> RngOK(seen) [] seen.e = "Fault" -> FALSE   \* the recorded execution crashed / threw / hung
+             [] OTHER -> TRUE
 TraceAccepted == TLCGet("stats").diameter - 1 = Len(TraceLog)
 =============================================================================
